@@ -17,7 +17,7 @@ tvars == <<tid, l, qD, pos, pc, zero, meta, nsteps>>
 Rec == Tr[tid][l]
 HasRec == tid <= Len(Tr) /\ l <= Len(Tr[tid])
 Advance == l' = l + 1 /\ tid' = tid
-NoMeta == [L |-> 0, op |-> "", mode |-> "", phys |-> <<>>, cls |-> "", qD0 |-> <<>>]
+NoMeta == [L |-> 0, op |-> "", mode |-> "", phys |-> <<>>, cls |-> "", qD0 |-> <<>>, pmode |-> ""]
 Blank == qD' = <<>> /\ pos' = 0 /\ pc' = "none" /\ zero' = FALSE /\ meta' = NoMeta /\ nsteps' = 0
 TraceInit == tid = 1 /\ l = 1 /\ qD = <<>> /\ pos = 0 /\ pc = "none" /\ zero = FALSE /\ meta = NoMeta /\ nsteps = 0
 
@@ -26,12 +26,16 @@ Neg(a) == [k \in DOMAIN a |-> -a[k]]
 (* bonds are stored 1-based: bond b (0..L) is qD[b + 1] *)
 Bond(b) == qD[b + 1]
 
+(* the model keeps one canonical (sorted) representative per bond: its fixed point is one of charge multisets *)
+SameBags(a, b) == /\ Len(a) = Len(b)
+                  /\ \A k \in DOMAIN a : Len(a[k]) = Len(b[k]) /\ \A x \in Range(a[k]) : CountOf(a[k], x) = CountOf(b[k], x)
 (* A trace is a history of calls on one object: a later call starts from the charges the previous one left behind;  *)
 (* between two calls the user may overwrite site tensors (event "poke"), which changes no charge.                   *)
 TBegin == /\ HasRec /\ Rec.ev = "begin" /\ pc \in {"none", "done"}
           /\ Len(Rec.qD) = Rec.L + 1 /\ Rec.L >= 1
           /\ (pc = "done" /\ meta.L > 0) => (Rec.qD = qD /\ Rec.L = meta.L /\ Rec.cls = meta.cls /\ Rec.phys = meta.phys)
-          /\ meta' = [L |-> Rec.L, op |-> Rec.op, mode |-> Rec.mode, phys |-> Rec.phys, cls |-> Rec.cls, qD0 |-> Rec.qD]
+          /\ meta' = [L |-> Rec.L, op |-> Rec.op, mode |-> Rec.mode, phys |-> Rec.phys, cls |-> Rec.cls, qD0 |-> Rec.qD,
+                     pmode |-> IF pc = "done" /\ meta.L > 0 THEN meta.mode ELSE ""]      \* direction of the previous call's final sweep
           /\ qD' = Rec.qD
           /\ pc' = IF Rec.op = "ortho" THEN "sweep" ELSE "pre"
           /\ pos' = IF (Rec.op = "ortho") = (Rec.mode = "left") THEN 1 ELSE Rec.L     \* Canon!Start
@@ -74,6 +78,7 @@ TEnd == /\ HasRec /\ Rec.ev = "end" /\ pc \in {"swept", "sweep"}
         /\ Len(Rec.qD) = meta.L + 1
         /\ \A b \in 1..(meta.L + 1) : Len(Rec.qD[b]) = Rec.dims[b] /\ Rec.dims[b] <= Len(meta.qD0[b])     \* NoGrowth, lengths
         /\ Rec.dims[1] = 1 /\ Rec.dims[meta.L + 1] = 1
+        /\ (meta.op = "ortho" /\ meta.pmode = meta.mode) => SameBags(Rec.qD, meta.qD0)                          \* Canon!Idempotent
         /\ (~Rec.is_zero) => (Rec.qD[1] = meta.qD0[1] /\ Rec.qD[meta.L + 1] = meta.qD0[meta.L + 1])       \* BoundaryOK
         /\ (pc = "swept" /\ zero) => Rec.is_zero                                                        \* dummy branch => zero state
         /\ Rec.nrm_nonneg /\ Rec.nrm_ok /\ Rec.state_ok /\ Rec.unit_ok /\ Rec.forms_ok /\ Rec.sparse_ok /\ Rec.types_ok
@@ -113,6 +118,7 @@ Diagnose ==
          ELSE IF pc = "swept" /\ Rec.qD # qD THEN "bond charges of the object differ from those of the local factorizations"
          ELSE IF ~(\A b \in 1..(meta.L + 1) : Len(Rec.qD[b]) = Rec.dims[b]) THEN "length of a charge list differs from the bond dimension"
          ELSE IF ~(\A b \in 1..(meta.L + 1) : Rec.dims[b] <= Len(meta.qD0[b])) THEN "a bond dimension grew"
+         ELSE IF meta.op = "ortho" /\ meta.pmode = meta.mode /\ ~SameBags(Rec.qD, meta.qD0) THEN "repeated sweep in the same direction changed the bond charges (not a fixed point)"
          ELSE IF ~Rec.is_zero /\ ~(Rec.qD[1] = meta.qD0[1] /\ Rec.qD[meta.L + 1] = meta.qD0[meta.L + 1]) THEN "total charge of a non-zero state changed"
          ELSE IF ~Rec.nrm_nonneg THEN "returned factor negative"
          ELSE IF ~Rec.nrm_ok THEN "returned factor is not the norm of the original"
